@@ -1,6 +1,7 @@
 import OnetVerif.Model.C12
 import OnetVerif.Gen.C12
 import OnetVerif.Gen.C12Nary
+import OnetVerif.Gen.C12Uses
 import OnetVerif.Proofs.C12NaryGen
 import OnetVerif.Props.C12
 import OnetVerif.Props.C12Flat
@@ -405,5 +406,66 @@ example : (Gen.C12Nary.Roster_GenerateNaryTreeWithRoot (NaryGen.roster [10, 11, 
 
 /-- the translation panics on `N = 0` with two servers (`parents[0]` of an empty slice), as the code does -/
 example : Gen.C12Nary.Roster_GenerateNaryTreeWithRoot (NaryGen.roster [1, 2, 3]) 0 none [] = none := by decide
+
+/-! ### `Tree.UsesList` (round 7): nested loops with `break` (`Gen/C12Uses.lean`) -/
+section UsesList
+open Gen.C12Uses
+
+/-- **`Tree.UsesList` as regenerated (two nested `range` loops, `break` out of the inner one, `return false` out of the outer)
+says: every roster member's id is the id of some node of `t.List()`** (the node list is a parameter) -/
+theorem c12_gen_UsesList_spec (t : Tree) (nodesOf : Tree → List TreeNode) :
+    Tree_UsesList t nodesOf = t.Roster.List.all fun p => (nodesOf t).any fun n => n.ServerIdentity.ID == p.ID := by
+  unfold Tree_UsesList
+  simp only []
+  have inner : ∀ (p : ServerIdentity) (nodes : List TreeNode) (found : Bool),
+      Gen.Rt.loop (ρ := Gen.Rt.Step Bool Unit) nodes found (fun found (n : TreeNode) =>
+          if (((n.ServerIdentity).ID) == (p.ID)) then Gen.Rt.Step.brk true else Gen.Rt.Step.next found) =
+        Sum.inr (if nodes.any (fun n => n.ServerIdentity.ID == p.ID) then true else found) := by
+    intro p nodes
+    induction nodes with
+    | nil => intro found; rfl
+    | cons n r ih =>
+      intro found
+      by_cases h : (n.ServerIdentity.ID == p.ID) = true
+      · simp [Gen.Rt.loop, h]
+      · have h' : (n.ServerIdentity.ID == p.ID) = false := by simpa using h
+        simp only [Gen.Rt.loop, h', Bool.false_eq_true, if_false, List.any_cons, Bool.false_or]
+        exact ih found
+  simp only [inner]
+  generalize t.Roster.List = ro
+  induction ro with
+  | nil => rfl
+  | cons p r ih =>
+    by_cases h : ((nodesOf t).any fun n => n.ServerIdentity.ID == p.ID) = true
+    · simp only [Gen.Rt.loop, h, if_true, Bool.not_true, List.all_cons, Bool.true_and]
+      simpa using ih
+    · simp [Gen.Rt.loop, h]
+
+private theorem getD_lt (l : List Nat) (i : Nat) (h : i < l.length) : l.getD i 0 = l[i] := by
+  simp [List.getD_eq_getElem?_getD, h]
+
+/-- on a roster of distinct keys and a tree given by its node list (roster indices in range) that is the model's `usesList` -/
+theorem c12_gen_UsesList_model (keys : List Nat) (hnd : keys.Nodup) (t : Nodes) (hin : ∀ x ∈ t, x.1 < keys.length) :
+    Tree_UsesList { Roster := { List := keys.map fun k => { ID := k } } }
+      (fun _ => t.map fun x => { ServerIdentity := { ID := keys.getD x.1 0 } }) = usesList t keys.length := by
+  rw [c12_gen_UsesList_spec]
+  unfold usesList
+  rw [Bool.eq_iff_iff]
+  simp only [List.all_eq_true, List.any_eq_true, List.mem_map, List.mem_range, beq_iff_eq]
+  constructor
+  · intro h m hm
+    obtain ⟨n, ⟨x, hx, rfl⟩, hn⟩ := h { ID := keys[m] } ⟨keys[m], List.getElem_mem hm, rfl⟩
+    refine ⟨x, hx, ?_⟩
+    have hx1 := hin x hx
+    simp only [getD_lt _ _ hx1] at hn
+    exact (List.getElem?_inj hx1 hnd (j := m)).mp (by simp [hx1, hm, hn])
+  · rintro h p ⟨k, hk, rfl⟩
+    obtain ⟨m, hm, rfl⟩ := List.mem_iff_getElem.mp hk
+    obtain ⟨x, hx, hxm⟩ := h m hm
+    refine ⟨_, ⟨x, hx, rfl⟩, ?_⟩
+    subst hxm
+    simp [List.getElem?_eq_getElem hm]
+
+end UsesList
 
 end C12
